@@ -160,6 +160,10 @@ def normalize_slice(idx, dim):
         elif step < 0:
             if start >= dim - 1:
                 start = None
+            elif start < 0:
+                # start was clamped to "before the first element": nothing is
+                # selected (a bare -1 would be re-read as the last element)
+                return slice(0, 0, 1)
             if stop < 0:
                 stop = None
         return slice(start, stop, step)
